@@ -8,7 +8,8 @@ from harness.common import T0, run_async
 
 KINDS = ["PO", "PK", "VP", "KO", "VK"]
 NAMES = ["a", "b", "c"]
-DEFAULTS = ["none", "int", "None"]      # no default / an int default / None as default of an int-annotated parameter
+# no default / an int default / None as default of an int-annotated parameter / a default declared through pydantic's Field(...)
+DEFAULTS = ["none", "int", "None", "field"]
 REC = []
 
 
@@ -26,7 +27,7 @@ def build_fn(spec):
     n_po = sum(1 for s in spec if s[1] == "PO")
     for idx, (name, kind, dk, dep) in enumerate(spec):
         ann = "Annotated[str, Depends(provider)]" if dep else "int"
-        dflt = {"none": "", "int": f" = {100 + idx}", "None": " = None"}[dk]
+        dflt = {"none": "", "int": f" = {100 + idx}", "None": " = None", "field": f" = Field(default={100 + idx}, ge=0)"}[dk]
         if kind == "PO":
             parts.append(f"{name}: {ann}{dflt}")
             if sum(1 for s in spec[: idx + 1] if s[1] == "PO") == n_po:
@@ -45,7 +46,8 @@ def build_fn(spec):
             parts.append(f"**{name}")
     names = [s[0] for s in spec]
     src = f"async def actor({', '.join(parts)}):\n    REC.append(dict({', '.join(f'{n}={n}' for n in names)}))\n    return 7\n"
-    ns = {"Annotated": Annotated, "Depends": Depends, "provider": provider, "REC": REC}
+    import pydantic
+    ns = {"Annotated": Annotated, "Depends": Depends, "provider": provider, "REC": REC, "Field": pydantic.Field}
     exec(src, ns)  # noqa: S102
     return ns["actor"], src
 
@@ -89,7 +91,7 @@ def h08_bind(S, n_max=2):
     spec = []
     for i in range(n):
         kind = KINDS[S.pick(f"kind{i}", 5)]
-        dk = DEFAULTS[S.pick(f"default{i}", 3)] if kind not in ("VP", "VK") else "none"
+        dk = DEFAULTS[S.pick(f"default{i}", len(DEFAULTS))] if kind not in ("VP", "VK") else "none"
         dep = S.flag(f"dep{i}") if kind in ("PK", "KO") and dk == "none" else False
         spec.append((NAMES[i], kind, dk, dep))
     if not valid(spec):
@@ -120,6 +122,9 @@ def h08_bind(S, n_max=2):
     convs = [("basic", BasicConverter), ("default", DefaultConverter)]
     if not has_vp and not has_vk:
         convs.append(("pydantic", PydanticConverter))
+    if any(s[2] == "field" for s in spec):
+        # Field(...) defaults are a pydantic notion: BasicConverter leaves the FieldInfo object in place by design
+        convs = [c for c in convs if c[0] != "basic"]
 
     async def main(loop):
         conn = Connection(InMemoryMessageBroker())
@@ -153,7 +158,7 @@ def h08_bind(S, n_max=2):
         elif name in payload:
             expect[name] = payload[name]
         else:
-            expect[name] = {"int": 100 + idx, "None": None, "none": inspect.Parameter.empty}[dk]
+            expect[name] = {"int": 100 + idx, "None": None, "none": inspect.Parameter.empty, "field": 100 + idx}[dk]
     S.cover("bound")
     for cname, r in results.items():
         S.tag("converter", cname)
@@ -193,6 +198,45 @@ def h08_bind(S, n_max=2):
                 info=f"{src.splitlines()[0]} payload={text!r}: basic {results['basic'][2]} pydantic {results['pydantic'][2]}")
 
 
+def h08_noargs(S, backend="redis"):
+    """A job enqueued without arguments travels through a broker's wire format and runs an all-defaults actor."""
+    import asyncio
+    from repid import Job, Router, Worker
+    from repid.converter import BasicConverter, DefaultConverter, PydanticConverter
+    from harness.common import World, place_names
+
+    cname, conv = [("basic", BasicConverter), ("pydantic", PydanticConverter), ("default", DefaultConverter)][S.pick("converter", 3)]
+    args_kind = ["none", "empty-dict"][S.pick("args", 2)]
+    S.tag("converter", cname)
+    S.tag("backend", backend)
+    got = []
+    out = {}
+
+    async def main(loop):
+        w = World(backend=backend)
+        await w.open(record=False)
+        r = Router()
+
+        @r.actor(converter=conv)
+        async def actor(a: int = 5, *, b: int = 6):
+            got.append((a, b))
+
+        await Job("actor", args=None if args_kind == "none" else {}, id_="m1", _connection=w.conn).enqueue()
+        worker = Worker(routers=[r], handle_signals=[], _connection=w.conn, graceful_shutdown_time=1.0, messages_limit=1)
+        try:
+            await asyncio.wait_for(worker.run(), timeout=5)
+            out["returned"] = True
+        except asyncio.TimeoutError:
+            out["returned"] = False
+        await asyncio.sleep(0.2)
+        out["places"] = place_names(w.places(), "m1")
+
+    run_async(main)
+    S.cover("no-args-job")
+    S.check("job-without-arguments-runs-the-all-defaults-actor", got == [(5, 6)], info=f"{cname} on {backend}, args={args_kind}: actor calls {got}; message is in {out['places']}")
+    S.check("and-is-acknowledged", out["places"] == [], info=str(out["places"]))
+
+
 HARNESSES = [
     Harness(name="H08-bind", scenario=h08_bind, workers=16, budget_s=900,
             params={"quick": {"n_max": 2}, "thorough": {"n_max": 3}},
@@ -203,4 +247,9 @@ HARNESSES = [
             functions=["converter.py:BasicConverter.convert_inputs", "converter.py:PydanticConverter.convert_inputs", "_processor.py:_Processor.actor_run"],
             covers=["bound", "required-missing", "empty-payload", "both-converters"]),
 ]
+for _be in ("mem", "redis", "rabbit"):
+    HARNESSES.append(Harness(name=f"H08-noargs-{_be}", scenario=h08_noargs, params={"quick": {"backend": _be}, "thorough": {"backend": _be}},
+                             bounds={"job": "args=None or args={} through Job.enqueue(), the broker's wire format, a Worker", "converters": "Basic, Pydantic, Default"},
+                             functions=["job.py:Job.enqueue", "worker.py:Worker.run"], covers=["no-args-job"],
+                             stubs=[] if _be == "mem" else [f"fake {_be} server"]))
 ASSUMPTIONS = ["finite combinatorial space enumerated by the solver (selectors); payload values are small ints; no arithmetic insight is claimed"]
